@@ -46,7 +46,7 @@ REQUIRED_MONITORS = ["all_processes_succeed", "values_correct", "no_load_of_part
                      "load_after_crash_succeeds", "gates_matched"]
 REQUIRED_BUCKETS = {
     "quick": ["schedule:2proc", "schedule:3proc", "kill:statement", "kill:cc_write1", "kill:cc_write2",
-              "kill:cc_done", "kill:after_source_removal", "hazard_window_open_during_other_lookup", "publish:rename_observed"],
+              "kill:cc_done", "kill:after_source_removal", "killcc:cc_write1", "killcc:cc_write2", "killcc:cc_done", "hazard_window_open_during_other_lookup", "publish:rename_observed"],
 }
 REQUIRED_BUCKETS["thorough"] = REQUIRED_BUCKETS["quick"] + ["stress:4", "stress:8", "stress:16"]
 WATCHDOG_S = {"quick": 1800, "thorough": 4*3600}
@@ -186,6 +186,10 @@ def gen_cases(tier, seed):
     for g in ("cc_write1", "cc_write2", "cc_done"):
         cases.append({"id": "kill/%s" % g, "kind": "kill", "mode": "kill:%s" % g, "event": ["compiler", g],
                       "group": "k-" + g})
+    for g in ("cc_write1", "cc_write2", "cc_done"):
+        for sig in ("SIGKILL", "SIGTERM", "SIGSEGV"):
+            cases.append({"id": "killcc/%s-%s" % (g, sig), "kind": "kill", "mode": "killcc:%s:%s" % (g, sig),
+                          "event": ["compiler-only", g, sig], "group": "kc-%s-%s" % (g, sig)})
     if tier == "thorough":
         for n in (4, 8, 16):
             for r in range(12 if n < 16 else 6):
@@ -325,7 +329,17 @@ def run_kill(case, rec):
         p = spawn(cache, ctrl, "K", mode, {"TMPDIR": work})
         r = result_of(p, timeout=120)
         killed = (r["exit"] == -signal.SIGKILL)
-        if mode.startswith("killline"):
+        if mode.startswith("killcc"):
+            # only the compiler died: the builder may report an error, but must not crash on a signal
+            # or return wrong values
+            killed = True
+            rec.bucket("killcc:" + mode.split(":")[1])
+            okb = (r.get("ok") and r.get("Iq") == ref) or (not r.get("ok") and (r.get("exit") or 0) > 0
+                                                           and not r.get("timeout"))
+            rec.check("builder_survives_compiler_death", bool(okb),
+                      {"mode": mode, "builder": {k: r.get(k) for k in ("ok", "exit", "error", "Iq", "stderr")}},
+                      key="C18/truncated-library-published-after-compiler-death")
+        elif mode.startswith("killline"):
             rec.bucket("kill:statement")
             text = case["event"][1]
             if "os.unlink" in text or text.startswith("return dll") or "else:" in text:
@@ -341,7 +355,10 @@ def run_kill(case, rec):
             rec.bucket("kill:final_name_present")
         if killed and not finals:
             rec.bucket("kill:before_final_name")
-        rec.check("kill_point_reached", killed, {"mode": mode, "event": case["event"], "result": r})
+        rec.seen("kill_point_reached", 1 if killed else 0)
+        if not killed:
+            rec.inconclusive("kill point %s was not reached: exit %s %s" % (case["event"], r.get("exit"),
+                                                                             (r.get("error") or "")[:200]))
         # a fresh, ungated process with the ordinary compiler must now succeed
         p2 = spawn(cache, ctrl, "F", "plain", {"CC": "cc", "TMPDIR": work})
         r2 = result_of(p2, timeout=120)
